@@ -94,9 +94,38 @@ def run_mutants(names):
         subprocess.run([os.path.join(VERIF, "bin", "vp"), "check", p], capture_output=True, text=True, cwd=VERIF)
 
 
+def run_benign(names):
+    """behaviour-preserving edits (mutants/benign_*.patch): every check must stay silent"""
+    man = json.load(open(os.path.join(VERIF, "MANIFEST.json")))
+    props = [c["property_id"] for c in man["checks"]]
+    res_path = os.path.join(VERIF, "tables", "benign_results.json")
+    results = {}
+    for fn in names:
+        r = subprocess.run([sys.executable, os.path.join(VERIF, "bin", "try_patch.py"), os.path.join(VERIF, "mutants", fn)] + props, capture_output=True, text=True,
+                           env=dict(os.environ, VP_NO_REWRITE="1"))
+        alarms = {}
+        cur = None
+        for l in r.stdout.splitlines():
+            m = re.match(r"== (C\d+) rc=(\d+)", l)
+            if m:
+                cur = m.group(1)
+                if m.group(2) != "0":
+                    alarms[cur] = []
+            m = re.match(r"\s+rule=(\S+) fn=(\S+)", l)
+            if m and cur in alarms:
+                alarms[cur].append("%s %s" % (m.group(1), m.group(2).split("::")[-1]))
+        results[fn] = {"checks_run": len(props), "alarms": alarms, "verdict": "silent" if not alarms else "FALSE ALARM"}
+        print(fn, results[fn]["verdict"], alarms, flush=True)
+        json.dump(results, open(res_path, "w"), indent=1, sort_keys=True)
+    for p in props:
+        subprocess.run([os.path.join(VERIF, "bin", "vp"), "check", p], capture_output=True, text=True, cwd=VERIF)
+
+
 if __name__ == "__main__":
-    if len(sys.argv) > 1 and sys.argv[1] == "--mutants":
-        names = sys.argv[2:] or sorted(f for f in os.listdir(os.path.join(VERIF, "mutants")) if f.endswith(".patch"))
+    if len(sys.argv) > 1 and sys.argv[1] == "--benign":
+        run_benign(sys.argv[2:] or sorted(f for f in os.listdir(os.path.join(VERIF, "mutants")) if f.startswith("benign_")))
+    elif len(sys.argv) > 1 and sys.argv[1] == "--mutants":
+        names = sys.argv[2:] or sorted(f for f in os.listdir(os.path.join(VERIF, "mutants")) if f.endswith(".patch") and not f.startswith("benign_"))
         run_mutants(names)
     else:
         ids = sys.argv[1:] or sorted(os.listdir(os.path.join(VERIF, "seeded")))
